@@ -3,13 +3,14 @@ import json
 import vf
 
 def run(ctx):
-    ok = vf.build_harness(ctx, ('default', 'alt')); ok = vf.build_coq(ctx) and ok
+    ok = vf.build_harness(ctx, ('default', 'alt'), optional=('alt',)); ok = vf.build_coq(ctx) and ok
     vf.forbidden_scan(ctx); vf.proof_obligations(ctx)
     if ctx.tier == 'thorough': vf.coqchk(ctx, 'C16')
     if not ok: vf.finish(ctx)
     n = 6000 if ctx.quick() else 120000
     runs = [('default', ['fresh', str(n), '1']), ('default', ['fresh', str(max(50, n // 20)), '8']), ('default', ['stress', '8', str(max(200, n // 40))]), ('alt', ['fresh', str(max(100, n // 10)), '1'])]
     for cfg, args in runs:
+        if cfg in ctx.unbuilt: continue
         r = vf.sh([vf.harness_bin('concd', cfg)] + args, timeout=6000)
         vals = {}; fails = []
         for l in r.stdout.split('\n'):
